@@ -41,7 +41,7 @@ def free_port():
 class Server(object):
     def __init__(self, kind="sync", workers=1, bind="tcp", timeout=30, graceful=4, extra=(), conf_lines=(), pidfile=True,
                  env=None, threads=None, keepalive=None, bind_in_conf=False, daemon=False, pre_gid=None,
-                 extra_binds=(), systemd=False):
+                 extra_binds=(), systemd=False, app="rapp:app"):
         self.scratch = tempfile.mkdtemp(prefix="verif-r-")
         os.chmod(self.scratch, 0o755)
         self.kind = kind
@@ -97,6 +97,7 @@ class Server(object):
         if daemon:
             args += ["-D", "--error-logfile", self.log]
         args += list(extra) + ["rapp:app"]
+        self.app_target = app
         e = dict(os.environ)
         e.update({"PYTHONPATH": REPO + os.pathsep + RFILES, "VERIF_SCRATCH": self.scratch, "PYTHONWARNINGS": "ignore",
                   "PYTHONDONTWRITEBYTECODE": "1"})
@@ -117,6 +118,8 @@ class Server(object):
         if pre_gid is not None:
             def pre():      # master started as root:<pre_gid> with root's supplementary groups
                 os.setgid(pre_gid)
+        if self.app_target != "rapp:app":
+            args[args.index("rapp:app")] = self.app_target
         self.proc = subprocess.Popen(args, cwd=self.scratch, env=e, stdout=self.logf, stderr=self.logf, stdin=subprocess.DEVNULL,
                                      start_new_session=True, preexec_fn=pre, close_fds=not systemd)
         self.pid = self.proc.pid
